@@ -227,8 +227,14 @@ class World:
 # ------------------------------------------------------------------------------------------
 # values
 
-def build_value(v, frame=None):
+def build_value(v, frame=None, memo=None):
+    if memo is None:
+        memo = {}
     t = v["t"]
+    if t == "shared":  # the SAME object at several positions of one value
+        if v["key"] not in memo:
+            memo[v["key"]] = build_value(v["v"], frame, memo)
+        return memo[v["key"]]
     if t == "np":
         return np.zeros(tuple(v["s"]), dtype=v.get("d", "float32"))
     if t == "duck":
@@ -248,15 +254,15 @@ def build_value(v, frame=None):
     if t == "fmt":
         return FmtObj(v["v"])
     if t == "tuple":
-        return tuple(build_value(c, frame) for c in v["c"])
+        return tuple(build_value(c, frame, memo) for c in v["c"])
     if t == "list":
-        return [build_value(c, frame) for c in v["c"]]
+        return [build_value(c, frame, memo) for c in v["c"]]
     if t == "dict":
-        return {k: build_value(c, frame) for k, c in v["c"]}
+        return {k: build_value(c, frame, memo) for k, c in v["c"]}
     if t == "nt":
-        return NT(*[build_value(c, frame) for c in v["c"]])
+        return NT(*[build_value(c, frame, memo) for c in v["c"]])
     if t == "node":
-        return Node([build_value(c, frame) for c in v["c"]])
+        return Node([build_value(c, frame, memo) for c in v["c"]])
     if t == "arg":
         return frame["args"][v["n"]]
     raise HarnessError(f"unknown value kind {t}")
